@@ -18,7 +18,7 @@ def flatten(x, depth=0, numeric=False):
     if x is None:
         return ('none',), []
     if isinstance(x, bool):
-        return ('bool', x), []
+        return ('bool',), [x]
     if isinstance(x, int):
         return ('int', x), []
     if isinstance(x, float):
@@ -29,13 +29,13 @@ def flatten(x, depth=0, numeric=False):
     if tn in ('SReal',):
         return ('real',), [x]
     if tn in ('SBool',):
-        return ('sbool',), [x]
+        return ('bool',), [x]
     if tn in ('float64', 'float32', 'longdouble'):
         return ('real',), [float(x)]
     if tn in ('int64', 'int32', 'intp'):
         return ('int', int(x)), []
     if tn in ('bool_', 'bool'):
-        return ('bool', bool(x)), []
+        return ('bool',), [bool(x)]
     if tn == 'BArray':
         return ('barray', tuple(x.shape)), list(x._a.flat)
     if tn == 'SArray':
